@@ -198,10 +198,104 @@ func c10IDScope(k int, res *core.CaseResult) {
 	}
 }
 
+// c10Retry: an element whose expansion failed (the root is still incomplete, or a document could not be loaded) and is expanded again
+// once the cause is gone. The failed call must leave the $ref it could not follow where it was, and the second call must give what a
+// fresh copy of the element gives.
+func c10Retry(k int, res *core.CaseResult) {
+	incomplete := `{"swagger":"2.0","info":{"title":"t","version":"1"},"paths":{}}`
+	complete := `{"swagger":"2.0","info":{"title":"t","version":"1"},"paths":{},` +
+		`"parameters":{"later":{"name":"late","in":"body","schema":{"title":"schema of the late parameter","type":"object"}}},` +
+		`"responses":{"later":{"description":"late response","schema":{"title":"schema of the late response","type":"object"}}}}`
+	mkRoot := func(text string, typedRoot bool) interface{} {
+		if typedRoot {
+			sw := new(spec.Swagger)
+			_ = json.Unmarshal([]byte(text), sw)
+			return sw
+		}
+		var g interface{}
+		_ = json.Unmarshal([]byte(text), &g)
+		return g
+	}
+	other := `{"parameters":{"later":{"name":"late","in":"body","schema":{"title":"schema of the late parameter","type":"object"}}},` +
+		`"responses":{"later":{"description":"late response","schema":{"title":"schema of the late response","type":"object"}}}}`
+	available := false
+	loader := func(u string) (json.RawMessage, error) {
+		if available && u == "file:///c10r/a/other.json" {
+			return json.RawMessage(other), nil
+		}
+		return nil, fmt.Errorf("temporarily unavailable: %s", u)
+	}
+	saved := spec.PathLoader
+	spec.PathLoader = loader
+	defer func() { spec.PathLoader = saved }()
+	typedRoot := k%2 == 0
+	type attempt struct {
+		name    string
+		refText string
+		mk      func() (interface{}, *spec.Ref)
+		run     func(el interface{}, second bool) error
+		want    string
+	}
+	withRoot := func(second bool) interface{} {
+		if second {
+			return mkRoot(complete, typedRoot)
+		}
+		return mkRoot(incomplete, typedRoot)
+	}
+	attempts := []attempt{
+		{"ExpandParameterWithRoot", "#/parameters/later", func() (interface{}, *spec.Ref) { p := spec.ParamRef("#/parameters/later"); return p, &p.Ref },
+			func(el interface{}, second bool) error { return spec.ExpandParameterWithRoot(el.(*spec.Parameter), withRoot(second), nil) }, "late"},
+		{"ExpandResponseWithRoot", "#/responses/later", func() (interface{}, *spec.Ref) { r := spec.ResponseRef("#/responses/later"); return r, &r.Ref },
+			func(el interface{}, second bool) error { return spec.ExpandResponseWithRoot(el.(*spec.Response), withRoot(second), nil) }, "late response"},
+		{"ExpandParameter", "other.json#/parameters/later", func() (interface{}, *spec.Ref) { p := spec.ParamRef("other.json#/parameters/later"); return p, &p.Ref },
+			func(el interface{}, second bool) error { available = second; return spec.ExpandParameter(el.(*spec.Parameter), "file:///c10r/a/root.json") }, "late"},
+		{"ExpandResponse", "other.json#/responses/later", func() (interface{}, *spec.Ref) { r := spec.ResponseRef("other.json#/responses/later"); return r, &r.Ref },
+			func(el interface{}, second bool) error { available = second; return spec.ExpandResponse(el.(*spec.Response), "file:///c10r/a/root.json") }, "late response"},
+	}
+	for _, a := range attempts {
+		el, ref := a.mk()
+		wit := map[string]interface{}{"entry": a.name, "element": map[string]string{"$ref": a.refText}, "first_root": json.RawMessage(incomplete), "second_root": json.RawMessage(complete),
+			"document_available_on_second_call": json.RawMessage(other), "root_typed": typedRoot}
+		err, pan := guard(func() error { return a.run(el, false) })
+		res.Evals++
+		res.Count("retry-after-failure", 1)
+		if pan != "" {
+			res.Violate("panic "+a.name+" (unresolvable element)", pan, wit)
+			continue
+		}
+		if err == nil {
+			res.Violate("silent-failure "+a.name+" (unresolvable element)", "no error for "+a.refText+" although nothing is there", wit)
+			continue
+		}
+		if got := ref.String(); got != a.refText {
+			res.Violate("failed-call-removed-the-$ref "+a.name, fmt.Sprintf("after the failed call the element holds $ref %q, it held %q", got, a.refText), wit)
+		}
+		err, pan = guard(func() error { return a.run(el, true) })
+		res.Evals++
+		if pan != "" || err != nil {
+			res.Violate("second-call-fails "+a.name, fmt.Sprintf("%v %s", err, pan), wit)
+			continue
+		}
+		b, _ := json.Marshal(el)
+		var plain map[string]interface{}
+		_ = json.Unmarshal(b, &plain)
+		got, _ := plain["name"].(string)
+		if got == "" {
+			got, _ = plain["description"].(string)
+		}
+		if got != a.want || plain["schema"] == nil {
+			res.Violate("second-call-after-a-failure-differs "+a.name, fmt.Sprintf("expanding the element again once %s exists gives %s", a.refText, core.Abbrev(string(b), 200)), wit)
+		}
+	}
+}
+
 func c10Run(env *core.Env, idx int) core.CaseResult {
 	var res core.CaseResult
 	if idx < 2 {
 		c10IDScope(idx, &res)
+	}
+	if idx >= 2 && idx < 4 {
+		c10Retry(idx, &res)
 	}
 	rng := core.Rng(env.Seed, "C10", idx)
 	multi := idx%2 == 1
